@@ -70,7 +70,7 @@ fn srtla_ack_dispatch<const IDX: usize>() {
     inc.srtla_ack_numbers.push(pool[0] as u32);
     let inflight0: [i32; N] = core::array::from_fn(|i| conns[i].in_flight_packets);
 
-    let r = kani::block_on(process_connection_events(IDX, &mut conns[..], None, fake_socket(&sock), &tracker, kani::any(), inc));
+    let r = poll_once(process_connection_events(IDX, &mut conns[..], None, fake_socket(&sock), &tracker, kani::any(), inc));
     assert!(r.is_ok(), "dispatch never fails");
 
     // oracle: who retires it
@@ -146,7 +146,7 @@ fn c02_cumulative_ack_every_link() {
     let mut inc = SrtlaIncoming::default();
     inc.read_any = true;
     inc.ack_numbers.push(ack as u32);
-    let r = kani::block_on(process_connection_events(0, &mut conns[..], None, fake_socket(&sock), &tracker, kani::any(), inc));
+    let r = poll_once(process_connection_events(0, &mut conns[..], None, fake_socket(&sock), &tracker, kani::any(), inc));
     assert!(r.is_ok(), "dispatch never fails");
     let mut i = 0;
     while i < N {
@@ -210,7 +210,7 @@ fn c10_window_evolution_two_acks() {
         }
         a += 1;
     }
-    let r = kani::block_on(process_connection_events(0, &mut conns[..], None, fake_socket(&sock), &tracker, true, inc));
+    let r = poll_once(process_connection_events(0, &mut conns[..], None, fake_socket(&sock), &tracker, true, inc));
     assert!(r.is_ok(), "dispatch never fails");
     let mut i = 0;
     while i < N {
